@@ -108,7 +108,14 @@ func (p *Parser) encodeString(header *parser.PacketHeader, v any) ([]byte, error
 
 func (p *Parser) encodeBinary(header *parser.PacketHeader, v any) (buffers [][]byte, err error) {
 	numBuffers := 0
-	buffers, err = p.deconstructPacket(reflect.ValueOf(v), &numBuffers)
+	var undo []func()
+	// Put the caller's values back, whether or not encoding succeeds.
+	defer func() {
+		for i := len(undo) - 1; i >= 0; i-- {
+			undo[i]()
+		}
+	}()
+	buffers, err = p.deconstructPacket(reflect.ValueOf(v), &numBuffers, &undo)
 	if err != nil {
 		return nil, err
 	}
